@@ -244,6 +244,7 @@ func runCheck(o *Options) int {
 	solveAll(obls, workDir, o.timeoutMs, o.tier == "thorough", par)
 
 	grounds := runGrounds(w, o)
+	grounds = append(grounds, runScans(w, o)...)
 	lemmas := runLemmas(w, o, workDir)
 	// solver timeouts fall back to the bounded stand-in the contract names (if any, and if it passes):
 	// the obligation is then reported as bounded, never as proved and never as a violation
